@@ -284,4 +284,6 @@ Qed.
 Definition astral_line : str := s "  """ ++ [128512] ++ s " note"" name: String".
 Lemma orig_column_units_refuted_lemma :
   exists tok, In tok (token_starts astral_line) /\ t_line tok = 0 /\ t_colc tok = 11 /\ t_col16 tok = 12.
-Proof. eexists. split; [right; left; reflexivity|]. vm_compute. repeat split. Qed.
+Proof.
+  exists {| t_line := 0; t_col16 := 12; t_colc := 11 |}. split; [vm_compute; right; left; reflexivity | repeat split].
+Qed.
